@@ -32,6 +32,8 @@ Record cfg := {
   c_kex : kexfam;
   c_adv : bool;              (* advertise_strict_kex *)
   c_ext : bool;              (* server: server_sig_algs and the client sent ext-info-c *)
+  c_once : bool;             (* false for paramiko (every KEXINIT repeats the kex-strict name); true models
+                                an OpenSSH-like peer that only puts it in its initial KEXINIT *)
   c_app : Z -> option (list Z)
 }.
 
@@ -87,7 +89,7 @@ Definition is_server (c : cfg) : bool := match c_role c with Server => true | Cl
    ever sent by _activate_outbound, which then resets the outbound counter when strict kex was agreed
    and switches the outbound cipher (new epoch). *)
 Definition mk_out (c : cfg) (st : peer) (t : Z) : pkt :=
-  {| p_type := t; p_ok := true; p_marker := if (t =? MSG_KEXINIT) && c_adv c then 1 else 0;
+  {| p_type := t; p_ok := true; p_marker := if (t =? MSG_KEXINIT) && c_adv c && negb (c_once c && kdone st) then 1 else 0;
      p_epoch := ep_out st; p_mseq := seq_out st |}.
 
 Definition send1 (c : cfg) (st : peer) (t : Z) : peer * pkt :=
@@ -318,11 +320,13 @@ Record net := {
 Definition flat (l : list pkt) : list Z := flat_map (fun p => [p_type p; p_mseq p]) l.
 Definition is_cont (o : outcome) : bool := match o with Continue => true | _ => false end.
 
-Definition cfg_of (r : role) (k : kexfam) (adv ext : bool) : cfg :=
-  {| c_role := r; c_kex := k; c_adv := adv; c_ext := ext;
+Definition cfg_of (r : role) (k : kexfam) (adv ext once : bool) : cfg :=
+  {| c_role := r; c_kex := k; c_adv := adv; c_ext := ext; c_once := once;
      c_app := fun t => match r with
-                       | Server => if t =? 5 then Some [6] else if t =? 50 then Some [52] else None
-                       | Client => if t =? 6 then Some [50] else if t =? 52 then Some [] else None
+                       | Server => if t =? 5 then Some [6] else if t =? 50 then Some [52]
+                                   else if t =? 80 then Some [82] else None
+                       | Client => if t =? 6 then Some [50] else if t =? 52 then Some []
+                                   else if t =? 82 then Some [] else None
                        end |}.
 
 Section Net.
@@ -389,13 +393,24 @@ Section Net.
   Definition client_local (n : net) (ts : list Z) : net :=
     let '(st, outs) := local cc (n_c n) ts in client_sends n st Continue [] outs.
 
+  Fixpoint rekeys (k : nat) (n : net) : net :=
+    match k with
+    | O => n
+    | S k' => if both_up n then rekeys k' (run_net 200 (client_local n [MSG_KEXINIT])) else n
+    end.
+
   (* the harness scenario: handshake; if both sides are up, the client authenticates ("none");
-     then optionally the client asks for a re-key *)
-  Definition scenario (rekey : bool) : net :=
+     then the client asks for `rekey` re-keys one after the other and finally sends a global request
+     (type 80, answered by 82) to see that the session still works *)
+  Definition scenario (rekey : nat) : net :=
     let n1 := run_net 200 net0 in
     if both_up n1 then
       let n2 := run_net 200 (client_local n1 [5]) in
-      if rekey && both_up n2 then run_net 200 (client_local n2 [MSG_KEXINIT]) else n2
+      match rekey with
+      | O => n2
+      | _ => let n3 := rekeys rekey n2 in
+             if both_up n3 then run_net 200 (client_local n3 [80]) else n3
+      end
     else n1.
 End Net.
 
@@ -413,18 +428,20 @@ Definition side (st : peer) (mine other : outcome) (rx tx : list Z) : list Z :=
   [status mine other; b2z (kdone st); b2z (agreed st); seq_in st; seq_out st;
    Z.of_nat (length rx) / 2] ++ rx ++ [Z.of_nat (length tx) / 2] ++ tx.
 
-(* (kex family 0/1, client strict, server strict, ext-info, rekey, script) *)
-Definition run_scn (x : Z * bool * bool * bool * bool * script) : list Z :=
-  let '(k, sc_, ss_, ext, rk, scr) := x in
+(* (kex family 0/1, client strict, server strict, ext-info, number of re-keys,
+    client / server repeats its strict name only in the initial KEXINIT, script) *)
+Definition run_scn (x : Z * bool * bool * bool * Z * bool * bool * script) : list Z :=
+  let '(k, sc_, ss_, ext, rk, oc_, os_, scr) := x in
   let kf := if k =? 0 then KDH else KGEX in
-  let n := scenario (cfg_of Client kf sc_ ext) (cfg_of Server kf ss_ ext) scr rk in
+  let n := scenario (cfg_of Client kf sc_ ext oc_) (cfg_of Server kf ss_ ext os_) scr
+                    (Z.to_nat (Z.min rk 4)) in
   side (n_c n) (o_c n) (o_s n) (rx_c n) (tx_c n) ++ side (n_s n) (o_s n) (o_c n) (rx_s n) (tx_s n).
 
 (* one transport alone, driven by a list of (type, ok, marker, epoch, mseq) with the ideal MAC:
    used to compare single dispatch decisions. *)
 Definition run_peer (x : bool * Z * bool * list (Z * bool * Z * Z * Z)) : list Z :=
   let '(srv, k, adv, ps) := x in
-  let c := cfg_of (if srv then Server else Client) (if k =? 0 then KDH else KGEX) adv true in
+  let c := cfg_of (if srv then Server else Client) (if k =? 0 then KDH else KGEX) adv true false in
   let ins := map (fun q => match q with (t, ok, m, e, s) =>
                    Recv {| p_type := t; p_ok := ok; p_marker := m; p_epoch := e; p_mseq := s |} end) ps in
   let '(o, st, outs) := session mac_ideal c ins in
